@@ -83,7 +83,7 @@ Section Optimal.
         intros o' r' q' Hin Hk'. apply in_app_or in Hin as [Hin|[<-|[]]]; [eauto|congruence].
       - intros (-> & -> & H). repeat split; auto.
         intros o' r' q' Hin Hk'. apply in_app_or in Hin as [Hin|[<-|[]]]; [eauto|congruence]. }
-    unfold bm_skip, bm_take. fold zero.
+    unfold bm_skip, bm_take, g_bm_skip, g_bm_take. fold zero.
     destruct (qleb q zero) eqn:Ez; simpl.
     { (* q <= 0 : skipped *)
       destruct res as [cur|]; simpl.
